@@ -141,6 +141,7 @@ func runC19(c *Ctx) {
 		pair("ReadRouterIdentity vs NewRouterIdentityFromBytes", w, nil, ra, rb)
 	}
 	// certificates: bytes vs from-certificate vs with-types vs builder
+	var reusedBuilder *certificate.CertificateBuilder
 	for i := 0; i < c.N(300, 8000); i++ {
 		s := []int{0, 1, 2, 3, 4, 5, 6, 7, 8, 9, 11, 12, 255, 65280, 65534, 65535}[r.Intn(16)]
 		cr := []int{0, 1, 2, 3, 4, 5, 6, 7, 8, 255, 65280, 65534, 65535}[r.Intn(13)]
@@ -176,7 +177,11 @@ func runC19(c *Ctx) {
 		k3, e3 := key_certificate.NewKeyCertificateWithTypes(s, cr)
 		if e3 == nil {
 			var bc *certificate.Certificate
-			bld, be := certificate.NewCertificateBuilder().WithKeyTypes(s, cr)
+			// a fresh builder on even iterations, one builder reused across iterations on odd ones
+			if reusedBuilder == nil || i%2 == 0 {
+				reusedBuilder = certificate.NewCertificateBuilder()
+			}
+			bld, be := reusedBuilder.WithKeyTypes(s, cr)
 			if be == nil {
 				bc, be = bld.Build()
 			}
